@@ -9,7 +9,7 @@ from .c15 import ref_py
 
 ID = 'C16'
 LEVEL = 'model_checking'
-RULE = ('every atom text of length <= 3 [thorough: 4] over the 21 characters {a Z 0 _ space \' " LF CR # % ( ) , . : é 五 ﬁ(ligature) ％(full-width) and a character outside the BMP} (quoted when '
+RULE = ('(long atoms of 250..1030 characters with a character that needs escaping at every offset around 256, 512, 1024; compounds named like operators with numeral arguments) every atom text of length <= 3 [thorough: 4] over the 21 characters {a Z 0 _ space \' " LF CR # % ( ) , . : é 五 ﬁ(ligature) ％(full-width) and a character outside the BMP} (quoted when '
         'the lexer requires it, also quoted when it does not), and every term of depth <= 2 over {6 atom texts, 0 7 123, '
         'f/1, g/2, zero-argument compounds f() and a quoted one, [] [t] [t,u] [t|V] [t,u|V], _, named variables} - and pairs of literals that print alike (a compound or list next to the quoted atom spelling it) - each literal compiled as a fact argument, as a head '
         'argument of a rule, and as a body-goal argument, each batch also compiled from a file holding the same text (identical code required), then (1) read back through a query: structure equals the '
@@ -48,6 +48,10 @@ def depth1():
     out += [L([t]) for t in B] + [L([t, u]) for t in B for u in B]
     out += [L([t], V('T')) for t in B] + [L([t, u], V('T')) for t in B[:8] for u in B[:8]]
     out += [F('a b', t) for t in B[:6]] + [F("it's", t, t) for t in B[:4]]
+    # compounds whose NAME is an operator or punctuation symbol (quoted in the source): a compound like
+    # any other, also with numerals as arguments
+    for nm in ('-', '+', '*', '/', ',', ';', '->', ':-', '|', '[]', '{}', '!'):
+        out += [F(nm, C(7)), F(nm, C(0), C(7)), F(nm, A('a'))]
     return out
 
 
@@ -82,6 +86,11 @@ def literals(tier):
     # unquoted atoms that the lexer accepts as they are, and the same atom quoted
     for s in ['a', 'aZ', 'a0', 'a_', 'truex', 'failx', 'a_Z0', 'abc']:
         yield 'atom-quoted-needlessly', A(s), "'%s'" % s
+    # LONG atoms: a character that needs escaping in the generated code (line break, quote, non-ASCII) at
+    # every offset around the multiples of 256 up to 1100
+    for special in ('\n', "'", '"', '\u00e9', '\r'):
+        for k in list(range(250, 262)) + list(range(506, 518)) + list(range(1018, 1030)):
+            yield 'long-atom', A('a' * k + special + 'zq ot in b'), None
     # confusable literals in ONE compilation unit: a compound / list and the quoted atom whose text is
     # that term's source spelling, side by side in the same positions
     for t in depth1():
